@@ -258,6 +258,10 @@ void run_case(Choices &c, Ctx &ctx)
 {
 	if (!g_have_comma)
 		ctx.fail("HARNESS", "the synthetic comma-decimal locale xx_XX is not available (LOCPATH not set or localedef failed)");
+	// nothing may leak from a case that failed half-way (the shrinker runs many cases in one process)
+	set_regime(0);
+	json_c_set_serialization_double_format(nullptr, JSON_C_OPTION_GLOBAL);
+	json_c_set_serialization_double_format(nullptr, JSON_C_OPTION_THREAD);
 	LeakScope leak;
 	if (ctx.mode == "classes")
 	{
@@ -377,9 +381,12 @@ void run_case(Choices &c, Ctx &ctx)
 		}
 		json_object *j = build(v);
 		int flags = (int)c.range(0, 63);
-		bool custom = c.coin(20);
+		bool custom = c.coin(30);
 		if (custom)
-			json_c_set_serialization_double_format(c.coin(50) ? "%.3f" : "%.10g", c.coin(50) ? JSON_C_OPTION_GLOBAL : JSON_C_OPTION_THREAD);
+		{
+			static const char *fmts[] = {"%.3f", "%.10g", "%8.2f", "%+.3f", "% .2f", "%012.4f", "%-10.1f", "%e", "%.0f", "%#.3g"};
+			json_c_set_serialization_double_format(fmts[c.pickn(10)], c.coin(50) ? JSON_C_OPTION_GLOBAL : JSON_C_OPTION_THREAD);
+		}
 		std::string ref = json_object_to_json_string_ext(j, flags);
 		for (int r : regimes)
 		{
